@@ -27,6 +27,7 @@ man = {
  'notes': 'One launcher: ./check <Cxx> <quick|thorough>; ./check <Cxx> --replay <file>. Exit 0 held / 1 VIOLATION / 2 INCONCLUSIVE. known_findings.json lists genuine defects (open -> KNOWN-FINDING line, fixed -> suppress nothing). See DESIGN.md.',
  'not_applicable': [],
 }
+LEVELS = {'C09': 'fault_enumeration'}
 for pid in ALL:
     if pid in CHECKS:
         c = CHECKS[pid]
@@ -37,7 +38,7 @@ for pid in ALL:
             'evidence_file': 'evidence/%s.json' % pid,
             'replay_cmd_template': './check %s --replay {path}' % pid,
             'engine': 'vf',
-            'level_claimed': {'category': {'C09': 'fault_enumeration'}.get(pid, 'exploration'),  # LEVELS 'text': c['text'], 'design_ref': c['design']},
+            'level_claimed': {'category': LEVELS.get(pid, 'exploration'), 'text': c['text'], 'design_ref': c['design']},
             'level_note': c['note'],
             'technique': c['technique'],
         })
